@@ -157,7 +157,7 @@ PROPS["C18"] = {
     "level_note": "Quiescent-point snapshots only; bounded families; reductions R1/R2.",
 }
 PROPS["C06"] = {
-    "groups": [{"run": "^vpH_C06_T_"}],
+    "groups": [{"run": "^vpH_C06_T_|^vpH_C12_T_health$"}],
     "bounds": {"quick": "one real follower (watcher, 500ms periodic check, acquisition rounds with symbolic jitter and backoff draws) next to a live foreign record; no watch notification of the vacancy is ever delivered; vacancy by deletion at a symbolic instant in [0,900ms] or by silent expiry (crash of the owner); store latency zero: leader by vacancy + 600ms. No-give-up: Watch() fails once or twice, or the watch channel is closed by the server after the initial value; 2s later (faults over) a vacancy occurs without notification: leader within 1.1s"},
     "outside": "unbounded liveness is replaced by the explicit bounds; several competing real candidates (the bound is per healthy candidate; competitors are environment); store latencies above zero (they add to the bound)",
     "assumptions": [],
